@@ -378,3 +378,16 @@ def r9(ctx):
 
 
 RULES.append(("C13.R9", "T2", "a zero-capacity type is never full; the link layer passes the broadcast mode on unchanged (C07.R12)", r9))
+
+
+def r10(ctx):
+    """'the class bits are set exactly when the buffer holds events of that class': the list that holds the events has room for every
+    configured type - EventBufferConfig::max_events sums each max_* once (C03.R10, shared code), else an insert is counted but not
+    stored and the class bit never clears. 'need-time, local-control, device-trouble and configuration-corrupt mirror the
+    application's answer': through the bindings each foreign flag reaches its namesake (C20.R2, shared code)."""
+    import c03, c20
+    c03.r10(ctx)
+    c20.r2(ctx)
+
+
+RULES.append(("C13.R10", "T8-namesake", "event capacity sums every type once (C03.R10); foreign application IIN flags reach their namesake (C20.R2)", r10))
